@@ -60,16 +60,6 @@ structure Req where
   qty : Option Int
   deriving DecidableEq, Repr
 
-def getText (tags : List (Nat × Val)) (t : Nat) : Option Str :=
-  match tags.find? (·.1 == t) with
-  | some (_, .text s) => some s
-  | _ => none
-
-def getNum (tags : List (Nat × Val)) (t : Nat) : Option Int :=
-  match tags.find? (·.1 == t) with
-  | some (_, .num n) => some n
-  | _ => none
-
 def Req.ofMsg (m : Msg) : Req :=
   ⟨m.msgType, getText m.tags 11, getText m.tags 41, getNum m.tags 44, getNum m.tags 38⟩
 
